@@ -1089,9 +1089,12 @@ END:VTODO\n";
 	}
 
 	with (echs_idiff_t d = t->dur) {
-		const int s = d.d / 1000U + !!(d.d % 1000U);
+		const long int s = (long int)(d.d / 1000 + !!(d.d % 1000));
 
-		rc -= fdprintf("DURATION:%d\n", s) < 0;
+		if (s > 0) {
+			/* an ISO 8601 duration, that's what echsx parses */
+			rc -= fdprintf("DURATION:PT%ldS\n", s) < 0;
+		}
 	}
 	with (unsigned int um = 0066U) {
 		if (t->t->umsk < 0777U) {
